@@ -440,6 +440,10 @@ uint64_t rq_digest (const rq_request *q)
         uint32_t mask = rp_defined_mask (b->fmt); if (bits[0]) mask &= ~(((1u << bits[0]) - 1) << sh[0]);
         h = 0x1234;
         for (int y = 0; y < b->h; y++) for (int x = 0; x < b->w; x++) h = vf_mix (h, vf_get_px (vf_buf_row (b, y), b->bpp, x) & mask);
+    } else if (q->dst.amap && q->dst.fmt == PIXMAN_rgba_float) {
+        /* same for the floating-point format: r, g, b are the value, the fourth float is the ignored own alpha */
+        const vf_buf *b = &q->dst.buf; h = 0x1234;
+        for (int y = 0; y < b->h; y++) { const uint32_t *row = (const uint32_t *)vf_buf_row (b, y); for (int x = 0; x < b->w; x++) { h = vf_mix (h, row[4 * x]); h = vf_mix (h, row[4 * x + 1]); h = vf_mix (h, row[4 * x + 2]); } }
     } else h = digest_buf (&q->dst.buf, 0x1234);
     if (q->dst.amap) h = digest_buf (&q->dst.abuf, h);
     return h;
@@ -489,6 +493,13 @@ void rq_label (const rq_request *q, char *buf, size_t n)
 {
     if (normal_repeat_step_overflow (&q->src) || (q->has_mask && normal_repeat_step_overflow (&q->mask))) {
         snprintf (buf, n, "normal-repeat-width-plus-step-beyond-16.16/%s-%s", q->src.kind == RQ_BITS ? rq_tr_name[q->src.tr_class] : "-", q->src.kind == RQ_BITS ? rq_filter_name (q->src.filter) : "-");
+        return;
+    }
+    /* a linear-gradient mask under an untransformed NORMAL-repeat bits source: the tiled-repeat whole-operation fast path composites such a
+     * request in horizontal pieces, and the affine linear gradient computes t = trunc(t0) + trunc(inc * i) from the start of each piece, so
+     * its last bit depends on where a piece starts (known finding, keyed separately) */
+    if (q->has_mask && q->mask.kind == RQ_LINEAR && q->src.kind == RQ_BITS && q->src.repeat == PIXMAN_REPEAT_NORMAL && (q->src.tr_class == TR_NONE || q->src.tr_class == TR_IDENTITY)) {
+        snprintf (buf, n, "linear-gradient-mask-under-tiled-normal-repeat-source/op%d/%s/%s", (int)q->op, kind_label (&q->src), kind_label (&q->dst));
         return;
     }
     snprintf (buf, n, "op%d/%s/%s/%s/%s-%s-%s", (int)q->op, kind_label (&q->src), q->has_mask ? kind_label (&q->mask) : "-", kind_label (&q->dst),
